@@ -1105,6 +1105,19 @@ example : ∃ (q1 q2 q3 q4 : Param ℝ) (x h : ℝ), 0 < h ∧
     0, 1 / 16, by norm_num, ⟨?_, ?_, ?_⟩, ⟨?_, ?_, ?_⟩, ⟨?_, ?_⟩, ⟨?_, ?_, ?_, ?_⟩⟩ <;>
     simp [Param.violates, Interval.isCorrect, Scalar.geb, Scalar.leb] <;> norm_num
 
+/-- the situation `FreeFn` of the fall-back theorems exists together with a constraint on the
+caller's side: the wrapped function has one unconstrained parameter at 0, the caller passes it with
+the constraint `[0, 1]`, `f` is bounded -/
+example : ∃ (f : List ℝ → ℝ) (params B : PList ℝ) (qv : Param ℝ), FreeFn f params B ∧ find? params 0 = some qv ∧
+    qv.prec = 0 ∧ qv.con ≠ none := by
+  refine ⟨fun _ => 0, [⟨0, 0, 0, some ⟨some 0, some 1, true, true⟩⟩], [⟨0, 0, 0, none⟩], ⟨0, 0, 0, some ⟨some 0, some 1, true, true⟩⟩,
+    ⟨⟨by simp [names], ?_, ?_⟩, ?_, ?_⟩, rfl, rfl, by simp⟩
+  · intro p hp; simp at hp; subst hp; rfl
+  · intro q hq b hb _; simp at hq hb; subst hq; subst hb; rfl
+  · intro b hb; simp at hb; subst hb; rfl
+  · intro pt
+    simp [tooBig, veryBig, neb, Scalar.geb, Scalar.leb, Scalar.eqb]
+
 /-! ## Non-vacuity of the hypotheses -/
 
 /-- the one-sided situation of `three_point_one_sided_stored` exists: a parameter at 0 passed with
